@@ -1,6 +1,7 @@
 -- GENERATED: root of the generated-facts library
 import TwigGen.DateFmt
 import TwigGen.MapRanges
+import TwigGen.Prec
 import TwigGen.Shared
 import TwigGen.Tokens
 import TwigGen.Writes
